@@ -59,12 +59,14 @@ type Enc struct {
 	funcsUsed map[string]string // function -> status (contract/inlined/extern/assumed)
 	namedCache     []types.Type
 	nilDom         map[string]string
+	mapPair        map[string]*mapPairInfo // MD or MV heap name -> pair
+	entryAlloc     bool // alloc!0 exists: entry-state closure axioms are emitted
 	lockDiscipline bool
 }
 
 func newEnc(prog *ssa.Program, specs *SpecDB) *Enc {
 	e := &Enc{prog: prog, specs: specs, declared: map[string]bool{}, heapSort: map[string]string{}, tags: map[string]int{},
-		lits: map[string]string{}, nilDom: map[string]string{}, notes: map[string]bool{}, structs: map[string]bool{}, funcsUsed: map[string]string{}}
+		lits: map[string]string{}, nilDom: map[string]string{}, mapPair: map[string]*mapPairInfo{}, notes: map[string]bool{}, structs: map[string]bool{}, funcsUsed: map[string]string{}}
 	e.decls = append(e.decls, preludeBase)
 	for _, d := range specs.preludeDecls {
 		e.decls = append(e.decls, d)
@@ -130,9 +132,9 @@ func (e *Enc) declConst(name, sort string) string {
 func (e *Enc) heapWF(c, sort string) {
 	switch sort {
 	case "(Array Int Slice)":
-		e.assume(fmt.Sprintf("(forall ((r Int)) (! (slice_ok (select %s r)) :pattern ((select %s r))))", c, c))
+		e.assume(fmt.Sprintf("(forall ((r Int)) (! (slice_ok (select %s r)) :pattern ((select %s r)) :qid wf_slice))", c, c))
 	case "(Array Int Iface)":
-		e.assume(fmt.Sprintf("(forall ((r Int)) (! (iface_ok (select %s r)) :pattern ((select %s r))))", c, c))
+		e.assume(fmt.Sprintf("(forall ((r Int)) (! (iface_ok (select %s r)) :pattern ((select %s r)) :qid wf_iface))", c, c))
 	}
 }
 
@@ -327,15 +329,60 @@ func (e *Enc) heap(name, sort string) string {
 
 func (e *Enc) fieldHeap(structT types.Type, i int) string {
 	st, _ := isStruct(structT)
-	return e.heap("F$"+structName(structT)+"$"+fieldName(st, i), "(Array Int "+e.sortOf(st.Field(i).Type())+")")
+	name := "F$" + structName(structT) + "$" + fieldName(st, i)
+	_, known := e.heapSort[name]
+	h := e.heap(name, "(Array Int "+e.sortOf(st.Field(i).Type())+")")
+	if !known {
+		e.entryClosed(h, st.Field(i).Type(), 1)
+	}
+	return h
 }
 
 func (e *Enc) ptrHeap(elem types.Type) string {
-	return e.heap("P$"+typeKey(elem), "(Array Int "+e.sortOf(elem)+")")
+	name := "P$" + typeKey(elem)
+	_, known := e.heapSort[name]
+	h := e.heap(name, "(Array Int "+e.sortOf(elem)+")")
+	if !known {
+		e.entryClosed(h, elem, 1)
+	}
+	return h
 }
 
 func (e *Enc) arrHeap(elem types.Type) string {
-	return e.heap("A$"+typeKey(elem), "(Array Int (Array Int "+e.sortOf(elem)+"))")
+	name := "A$" + typeKey(elem)
+	_, known := e.heapSort[name]
+	h := e.heap(name, "(Array Int (Array Int "+e.sortOf(elem)+"))")
+	if !known {
+		e.entryClosed(h, elem, 2)
+	}
+	return h
+}
+
+// entryClosed: at function entry every reference stored in the heap designates an allocated object
+// (or nil, or a global): the entry heap is closed under reachability. depth = number of selects.
+func (e *Enc) entryClosed(h string, elem types.Type, depth int) {
+	if !e.entryAlloc {
+		return
+	}
+	var proj string
+	switch elem.Underlying().(type) {
+	case *types.Pointer, *types.Map:
+		proj = "%s"
+	case *types.Slice:
+		proj = "(s_arr %s)"
+	case *types.Interface:
+		proj = "(i_val %s)"
+	default:
+		return
+	}
+	h0 := h + "!0"
+	if depth == 1 {
+		t := fmt.Sprintf("(select %s r)", h0)
+		e.assume(fmt.Sprintf("(forall ((r Int)) (! (< %s alloc!0) :pattern (%s) :qid closed1))", fmt.Sprintf(proj, t), t))
+	} else {
+		t := fmt.Sprintf("(select (select %s r) i)", h0)
+		e.assume(fmt.Sprintf("(forall ((r Int) (i Int)) (! (< %s alloc!0) :pattern (%s) :qid closed2))", fmt.Sprintf(proj, t), t))
+	}
 }
 
 func mapKey(m *types.Map) string { return typeKey(m) }
@@ -350,6 +397,25 @@ func (e *Enc) mapHeaps(mt types.Type) (string, string) {
 	if !known {
 		e.nilDom[md] = fmt.Sprintf("((as const (Array %s Bool)) false)", ks)
 		e.assume(eq(sel(md+"!0", "0"), e.nilDom[md]))
+		pi := &mapPairInfo{md: md, mv: mv, ks: ks, vs: vs, zero: e.zero(m.Elem())}
+		e.mapPair[md] = pi
+		e.mapPair[mv] = pi
+		e.assume(e.canonical(pi, md+"!0", mv+"!0"))
+		if e.entryAlloc {
+			var proj string
+			switch m.Elem().Underlying().(type) {
+			case *types.Pointer, *types.Map:
+				proj = "%s"
+			case *types.Slice:
+				proj = "(s_arr %s)"
+			case *types.Interface:
+				proj = "(i_val %s)"
+			}
+			if proj != "" {
+				t := fmt.Sprintf("(select (select %s!0 r) k)", mv)
+				e.assume(fmt.Sprintf("(forall ((r Int) (k %s)) (! (< %s alloc!0) :pattern (%s) :qid closedM))", ks, fmt.Sprintf(proj, t), t))
+			}
+		}
 	}
 	// card function for len(map)
 	e.declRaw("card$"+ks, fmt.Sprintf("(declare-fun card$%s ((Array %s Bool)) Int)\n(assert (forall ((s (Array %s Bool))) (! (>= (card$%s s) 0) :pattern ((card$%s s)))))\n(assert (= (card$%s ((as const (Array %s Bool)) false)) 0))\n(assert (forall ((s (Array %s Bool)) (k %s)) (! (= (card$%s (store s k true)) (ite (select s k) (card$%s s) (+ (card$%s s) 1))) :pattern ((card$%s (store s k true))))))\n(assert (forall ((s (Array %s Bool)) (k %s)) (! (= (card$%s (store s k false)) (ite (select s k) (- (card$%s s) 1) (card$%s s))) :pattern ((card$%s (store s k false))))))\n(assert (forall ((s (Array %s Bool)) (k %s)) (! (=> (select s k) (>= (card$%s s) 1)) :pattern ((select s k) (card$%s s)))))\n(assert (forall ((s (Array %s Bool))) (! (=> (= (card$%s s) 0) (= s ((as const (Array %s Bool)) false))) :pattern ((card$%s s)))))",
@@ -483,4 +549,23 @@ func (e *Enc) constArray(ks, vs, v string) string {
 		e.decls = append(e.decls, fmt.Sprintf("(declare-const %s (Array %s %s))\n(assert (forall ((i %s)) (! (= (select %s i) %s) :pattern ((select %s i)))))", name, ks, vs, ks, name, v, name))
 	}
 	return name
+}
+
+type mapPairInfo struct{ md, mv, ks, vs, zero string }
+
+// canonical: absent keys map to the zero value (representation invariant of the map model, so that
+// two maps have equal contents iff their (domain, value) arrays are equal)
+func (e *Enc) canonical(pi *mapPairInfo, mdT, mvT string) string {
+	return fmt.Sprintf("(forall ((m Int) (k %s)) (! (=> (not (select (select %s m) k)) (= (select (select %s m) k) %s)) :pattern ((select (select %s m) k)) :qid canon))", pi.ks, mdT, mvT, pi.zero, mvT)
+}
+
+// canonAfterHavoc re-states the invariant for the map heaps among names (after they were havoced).
+func (e *Enc) canonAfterHavoc(st *State, names []string) {
+	done := map[*mapPairInfo]bool{}
+	for _, n := range names {
+		if pi, ok := e.mapPair[n]; ok && !done[pi] {
+			done[pi] = true
+			e.assume(e.canonical(pi, st.H(pi.md), st.H(pi.mv)))
+		}
+	}
 }
